@@ -130,7 +130,6 @@ theorem step_field (o : JOpts) (hS : SchemaJ X o) (L : JLaws C) (mi : Nat) (limi
         · have : ¬ fx.f.num = k := fun e => hk e.symm
           simp [hk, this]
       · intro n hn
-        simp only
         rw [Ints.has_set_iff] at hn
         simp only [List.map_append, List.map_cons, List.map_nil, List.mem_append, List.mem_singleton]
         rcases hn with hn | hn
